@@ -3,6 +3,7 @@ import Cirbo.Proofs.RrgIdem
 import Cirbo.Proofs.MuoPost
 import Cirbo.Proofs.MdgPost
 import Cirbo.Proofs.MegPost
+import Cirbo.Proofs.PassTotal
 /-!
 # C18 — Simplification passes achieve their stated effect; pipelines equal sequencing
 
@@ -16,7 +17,8 @@ import Cirbo.Proofs.MegPost
 -- OBLIGATION: c18_muo_no_double_negation
 -- OBLIGATION: c18_muo_no_buffer_operand_or_output
 -- OBLIGATION: c18_reduction_only_drops_repeated_rrg
--- PARTIAL: every clause is proved, as partial correctness (whenever the pass returns) and for well-formed circuits (the C02 invariant plus accepted arities), which is what every public constructor produces; totality of the passes on such circuits and behaviour on malformed ones are decided by the correspondence.
+-- OBLIGATION: c18_passes_return
+-- PARTIAL: every clause is proved for well-formed circuits (the C02 invariant plus accepted arities), which is what every public constructor produces, and the passes are proved to return on them (c18_passes_return); behaviour on malformed circuits is decided by the correspondence only.
 -/
 namespace Cirbo
 
@@ -98,6 +100,14 @@ theorem c18_muo_no_buffer_operand_or_output {c c' c'' : Circuit} (hw : WFS c)
     ((∀ g ∈ c''.gates, ∀ o ∈ g.ops, isIffAt c'' o = false) ∧ (∀ o ∈ c''.outputs, isIffAt c'' o = false)) :=
   ⟨muo_no_buffer hw hbuf h, muo_rrg_no_buffer hw hbuf h h2⟩
 
+/-- the passes, the pipelines and cleanup return on every well-formed circuit, so the postconditions
+above are statements about every call -/
+theorem c18_passes_return {c : Circuit} (hw : WFS c) (har : ArOK c) :
+    (∀ a, ∃ c', rrg a c = .ok c') ∧ (∃ c', muo c = .ok c') ∧ (∃ c', mdg c = .ok c') ∧ (∃ c', meg c = .ok c') ∧
+    (∀ ts, ∃ c', applyTransformers c ts = .ok c') ∧ (∀ heavy, ∃ c', cleanup c heavy = .ok c') :=
+  ⟨fun _ => rrg_total hw, muo_total hw har, mdg_total hw, meg_total hw har,
+   fun ts => pipeline_total ts hw har, fun heavy => cleanup_total heavy hw har⟩
+
 /-! Non-vacuity -/
 open GateType in
 def c18Example : R Circuit := runOps Circuit.empty
@@ -116,5 +126,6 @@ example : ((c18Example >>= rrg false >>= rrg false).toOption.map fun c => c.labe
 #print axioms c18_muo_no_double_negation
 #print axioms c18_muo_no_buffer_operand_or_output
 #print axioms c18_reduction_only_drops_repeated_rrg
+#print axioms c18_passes_return
 
 end Cirbo
